@@ -157,8 +157,9 @@ Fixpoint gw_segments (fuel : nat) (toks : list bytes) : option (list seg * list 
 Definition gw_parse (tmpl : bytes) : option template :=
   match tmpl with
   | c :: path =>
-      if c =? c_slash then
+      if (c =? c_slash) && negb (existsb (N.eqb 0) tmpl) then
         let '(toks, verb) := gw_tokenize path in
+        if negb (is_literal verb) then None else
         match toks with
         | t :: _ =>
             if bytes_eqb t eof then Some {| t_segs := [SLit []]; t_verb := verb |}      (* the "/" template *)
